@@ -207,6 +207,23 @@ def x_own(report):
     facts["ownLcaSelectInPlaceAppendThenRefuse"] = _contains(
         _fn(_cls(lca, "LCA_Database"), "select"),
         tail.format(msg="we do not (yet) support multiple picklists for LCA databases"))
+    # ---------------------------------------------------------------- sqlite_index.py: what the SQLite loader hands out
+    # (NOT part of `facts`: either shape is a legitimate source; the model follows it.  Finding C15.3 = the mutable shape.)
+    sq = ast.parse(read("src/sourmash/index/sqlite_index.py"))
+    SQ = _cls(sq, "SqliteIndex")
+    ls, lss = _fn(SQ, "_load_sketch"), _fn(SQ, "_load_sketches")
+    mut1 = _contains(ls, "return SourmashSignature(mh, name=name, filename=filename)")
+    mut2 = _contains(lss, "ss = SourmashSignature(mh, name=row['name'], filename=row['filename'])\nyield ss, self.dbfile, sketch_id")
+    fr1 = _contains(ls, "ss = SourmashSignature(mh, name=name, filename=filename)\nss.into_frozen()\nreturn ss")
+    fr2 = _contains(lss, "ss = SourmashSignature(mh, name=row['name'], filename=row['filename'])\nss.into_frozen()\n"
+                         "yield ss, self.dbfile, sketch_id")
+    if mut1 and mut2:
+        sqlite_mutable = True
+    elif fr1 and fr2:
+        sqlite_mutable = False
+    else:
+        raise Unrecognised("own.SqliteIndex._load_sketch", "neither the plain nor the freezing shape (or the two sites differ)")
+    report["outputs"]["own.sqlite_hands_out_mutable"] = sqlite_mutable
     report["inputs"]["own"] = "AST shapes of signature.py (SourmashSignature / FrozenSourmashSignature), search.py " \
         "(GatherDatabases.__init__), index/__init__.py (counter_gather, CounterGather, LinearIndex, LazyLinearIndex, " \
         "ZipFileLinearIndex, MultiIndex, StandaloneManifestIndex), manifest.py, sbt.py / lca_db.py select; " \
@@ -215,6 +232,8 @@ def x_own(report):
     lines = ["", "/-- C15: clone / copy / return-self facts re-read from the source (true = the recorded shape) -/"]
     for k in sorted(facts):
         lines.append(f"def {k} : Bool := {str(bool(facts[k])).lower()}")
+    lines.append("/-- `SqliteIndex._load_sketch` / `_load_sketches` return a plain (mutable) SourmashSignature (finding C15.3) -/")
+    lines.append(f"def ownSqliteHandsOutMutable : Bool := {str(sqlite_mutable).lower()}")
     lines.append("def ownFacts : List (String × Bool) := [" +
                  ", ".join(f'("{k}", {k})' for k in sorted(facts)) + "]")
     return "\n".join(lines) + "\n"
